@@ -363,6 +363,12 @@ func runPackJob(j *Job, res *JobResult) {
 		}
 	}
 	b, err := runPackOnce(&c)
+	// an unrelated archive operation in the same process, on a file system without extended attributes: whatever
+	// the library remembers from it must not show in the next archive
+	if rc, e := archive.TarWithOptions("/proc/version", &archive.TarOptions{}); e == nil {
+		_, _ = io.Copy(io.Discard, rc)
+		rc.Close()
+	}
 	// C09 reproducibility: the same call once more on the unchanged tree
 	b2, err2 := runPackOnce(&c)
 	res.Before, res.After = "err", "err"
